@@ -84,6 +84,9 @@ func (o *CandidateNode) copyToYamlNode(node *yaml.Node) {
 	if o.Kind == ScalarNode && o.Style == 0 {
 		if firstBreak := strings.IndexByte(o.Value, '\n'); firstBreak >= 0 && strings.Trim(o.Value[:firstBreak], " \t") == "" {
 			node.Style = yaml.DoubleQuotedStyle
+		} else if firstBreak >= 0 && strings.ContainsAny(o.Value, "\u0085\u2028\u2029") {
+			// inside a literal block these count as line breaks and come back as a plain line feed
+			node.Style = yaml.DoubleQuotedStyle
 		}
 	}
 
